@@ -268,7 +268,9 @@ RestoreMonitors(r) ==
         b   == IF r.band = -1 THEN lc ELSE IF r.band = -2 THEN LastBand(fs) ELSE r.band
         plain == ~r.has_subtree /\ r.match = <<>> /\ r.excl = <<>>
         es  == IF b # -1 /\ HeadOK(fs, b) THEN Listing(fs, b, S, M) ELSE <<>>
-        judged == b # -1 /\ HeadOK(fs, b) /\ ~g.damaged /\ r.dest # "nonempty"
+        \* restoring a single nested file by path is not promised to create its parents (C12)
+        subtreeIsDir == ~r.has_subtree \/ es = <<>> \/ \E e \in SeqRange(es) : e.p = S /\ e.k = "Dir"
+        judged == b # -1 /\ HeadOK(fs, b) /\ ~g.damaged /\ r.dest # "nonempty" /\ ConsistentBelow(es, S) /\ subtreeIsDir
         \* the destination directory itself always exists; it only counts when the
         \* listing has an entry for the root
         T   == IF \E e \in SeqRange(es) : e.p = Root THEN T0
@@ -279,7 +281,10 @@ RestoreMonitors(r) ==
   \cup If(~r.outside_unchanged, {<<"RestoreEscaped", 0>>})
   \cup If(r.dest = "nonempty" /\ ~r.overwrite /\ (r.res = "ok" \/ ~r.dest_unchanged), {<<"ClobberedDestination", r.res>>})
   \cup If(r.band = -1 /\ ~g.damaged /\ lc # -1 /\ (r.res # "ok" \/ r.picked # lc), {<<"LatestWrong", <<r.picked, lc>> >>})
-  \cup If(judged /\ AllReadable(fs, es) /\ (r.res # "ok" \/ r.mon_errors # 0 \/ r.picked # b),
+  \* (an unreadable head met while stitching is legitimately grumbled about)
+  \cup If(judged /\ AllReadable(fs, es) /\
+             (r.res # "ok" \/ r.picked # b \/
+              (r.mon_errors # 0 /\ \A x \in Bands(fs) : x <= b => fs.bands[x].head \in {"ok", "absent"})),
           {<<"RestoreFailed", <<b, r.res, r.mon_errors>> >>})
   \cup If(judged /\ r.res = "ok" /\ AllReadable(fs, es) /\
              TreeSel(T, S, {}) # (IF plain THEN RestoreOf(fs, b) ELSE TreeOfEntries(fs, es)),
@@ -321,6 +326,16 @@ VersionsMonitors(r) ==
           {<<v.id, v.closed>> : v \in SeqRange(r.versions)} # {<<b, TailFile(fs, b)>> : b \in Bands(fs)},
           {<<"VersionsWrong", 0>>})
 
+\* the source walk emits exactly the non-excluded paths of the tree, strictly increasing
+WalkMonitors(r) ==
+    LET ps == [i \in 1..Len(r.entries) |-> r.entries[i].p]
+        M  == SeqRange(r.match)
+    IN
+       If(r.panic, {<<"Panic", r.pmsg>>})
+  \cup If(r.res = "ok" /\ ~StrictlyIncreasing(r.entries), {<<"WalkOrder", "not strictly increasing">>})
+  \cup If(r.res = "ok" /\ SeqRange(ps) # {p \in DOMAIN g.src : ~Excluded(p, M)},
+          {<<"WalkSet", <<SeqRange(ps) \ DOMAIN g.src, {p \in DOMAIN g.src : ~Excluded(p, M)} \ SeqRange(ps)>> >>})
+
 DoObs(r) ==
     /\ UNCHANGED <<fs, g>>
     /\ viol' = viol \cup
@@ -329,6 +344,7 @@ DoObs(r) ==
                      [] r.what = "list"     -> ListMonitors(r)
                      [] r.what = "validate" -> ValidateMonitors(r)
                      [] r.what = "versions" -> VersionsMonitors(r)
+                     [] r.what = "walk"     -> WalkMonitors(r)
                      [] OTHER -> {})}
 
 \* The independent projection of the archive directory must equal the state rebuilt verb by
@@ -371,6 +387,33 @@ DoQuiesce(r) ==
           \cup UNION {V("QuiescentDangling", x) : x \in Dangling(fs, CompleteBands(fs))}
           \cup UNION {V("QuiescentSnap", b) : b \in SnapBroken(fs, g.snap, g.partial)}
 
+(***************************************************************************)
+(* The real comparator / validity test / ancestor test on a table of raw   *)
+(* strings, against Apath.tla.                                             *)
+(***************************************************************************)
+Sign(p, q) == IF p = q THEN 0 ELSE IF Less(p, q) THEN -1 ELSE 1
+
+ApathMonitors(r) ==
+    LET n  == Len(r.strings)
+        ok(i) == IsValidRaw(r.strings[i])
+        P(i)  == ParseRaw(r.strings[i])
+        rows  == Len(r.cmp)
+    IN
+       {<<"ApathTable", <<"is_valid", r.strings[i], r.valid[i]>> >> : i \in {j \in 1..n : r.valid[j] # ok(j)}}
+  \cup {<<"ApathTable", <<"from_str", r.strings[i], r.fromstr[i]>> >> : i \in {j \in 1..n : r.fromstr[j] # ok(j)}}
+  \cup {<<"ApathTable", <<"conversion-panics", r.strings[i], r.panics[i]>> >> : i \in {j \in 1..n : r.panics[j] # ~ok(j)}}
+  \cup UNION { {<<"ApathTable", <<"cmp", r.strings[r.first + a - 1], r.strings[j], r.cmp[a][j]>> >> :
+                   j \in {x \in 1..n : ok(r.first + a - 1) /\ ok(x) /\ r.cmp[a][x] # Sign(P(r.first + a - 1), P(x))}}
+              : a \in 1..rows }
+  \cup UNION { {<<"ApathTable", <<"is_prefix_of", r.strings[r.first + a - 1], r.strings[j], r.prefix[a][j]>> >> :
+                   j \in {x \in 1..n : ok(r.first + a - 1) /\ ok(x) /\
+                              r.prefix[a][x] # (IF IsAncestorOrSelf(P(r.first + a - 1), P(x)) THEN 1 ELSE 0)}}
+              : a \in 1..rows }
+
+DoApath(r) ==
+    /\ UNCHANGED <<fs, g>>
+    /\ viol' = viol \cup UNION {V(x[1], x[2]) : x \in ApathMonitors(r)}
+
 Skip(r) == UNCHANGED <<fs, g, viol>>
 
 Init == l = 1 /\ fs = EmptyFs /\ g = InitG /\ viol = {}
@@ -392,6 +435,7 @@ Next ==
          [] r.ev = "reset"    -> DoReset(r)
          [] r.ev = "unsave"   -> DoUnsave(r)
          [] r.ev = "quiesce"  -> DoQuiesce(r)
+         [] r.ev = "apath"    -> DoApath(r)
          [] r.ev \in {"created", "end", "sweep", "crash", "note", "conc_begin"} -> Skip(r)
 
 Spec == Init /\ [][Next]_vars
